@@ -55,7 +55,7 @@ type c09Deposit struct {
 	amt      int64
 	denom    string
 	base     string
-	hookFail bool // valid recipient, but the deposit carries an undecodable hook: minted, reclaimed, burnt, refunded
+	hookFail bool // valid recipient, but the deposit's hook fails (amount 1: undecodable bytes; amount 2: signed [withdraw 1, send too much]): minted, reclaimed, burnt, refunded
 }
 type c09Send struct{}
 type c09Restart struct{}
@@ -152,11 +152,22 @@ func (c09Sys) Step(s *c09State, l engine.Letter) (*c09State, string, *engine.Vio
 		var data []byte
 		if d.hookFail {
 			data = []byte{0xde, 0xad}
+			if acc := s.w.AK.GetAccount(ctx, world.Addr("alice")); d.amt >= 2 && acc != nil {
+				// a correctly signed hook whose first message (a withdrawal of 1) would succeed and whose
+				// second (a send of more than she holds) fails: nothing of it may stay
+				alice := world.Addr("alice")
+				key := world.SecpKey("alice")
+				msgs := []sdk.Msg{
+					opchildtypes.NewMsgInitiateTokenWithdrawal(alice.String(), "l1recipient", sdk.NewInt64Coin(d.denom, 1)),
+					banktypes.NewMsgSend(alice, world.Addr("bob"), sdk.NewCoins(sdk.NewInt64Coin(d.denom, 1_000_000))),
+				}
+				data = signHookTx(s.w, msgs, key, key.PubKey(), acc.GetAccountNumber(), acc.GetSequence(), ctx.ChainID())
+			}
 		}
 		msg := opchildtypes.NewMsgFinalizeTokenDeposit(world.Addr("executor").String(), "l1sender", to, sdk.NewInt64Coin(d.denom, d.amt), s.nextL1, 7, d.base, data)
 		res := s.w.Deliver(ctx, msg)
 		if !res.OK() {
-			return c, "error", viol("harness-expectation", "deposit at the expected sequence failed: %v", res.Err)
+			return c, "error", viol("deposit-at-the-expected-sequence-is-processed", "deposit at the expected sequence failed: %v", res.Err)
 		}
 		c.nextL1++
 		first, had := s.pairs[d.denom]
